@@ -96,9 +96,7 @@ func init() {
 	sh("C11", 120, 1200, runner.Part{Scenario: "simhost", Params: p("smyield", "500", "pstop", "6", "psnapreq", "10"), Share: 2},
 		runner.Part{Scenario: "simhost", Params: p("smyield", "300", "pcrash", "6"), Share: 1},
 		// shards stopped and started again while snapshot jobs of the old incarnation are running or queued
-		runner.Part{Scenario: "simhost", Params: p("smyield", "600", "pstop", "20", "psnapreq", "40", "snapshot", "5", "overhead", "0", "phold", "300", "holdlen", "300", "pcrash", "0", "ppartition", "5", "steps", "2500"), Share: 1},
-		// ... with a second shard on every host that keeps the only snapshot worker busy, so that jobs queue
-		runner.Part{Scenario: "simhost", Params: p("ballast", "1", "snapworkers", "1", "smyield", "600", "pstop", "25", "prestart", "80", "psnapreq", "40", "snapshot", "5", "overhead", "0", "phold", "400", "holdlen", "300", "pcrash", "2", "steps", "2500"), Share: 2})
+		runner.Part{Scenario: "simhost", Params: p("smyield", "600", "pstop", "20", "psnapreq", "40", "snapshot", "5", "overhead", "0", "phold", "300", "holdlen", "300", "pcrash", "0", "ppartition", "5", "steps", "2500"), Share: 1})
 	sh("C12", 90, 1200, runner.Part{Scenario: "simhost", Params: p("pstop", "4", "timeout", "30"), Share: 2},
 		// StopShard / restarts landing inside the step worker's request intake (engine yield points)
 		runner.Part{Scenario: "simhost", Params: p("pstop", "10", "engyield", "400", "readmix", "60", "timeout", "30", "pcrash", "0"), Share: 2},
@@ -108,9 +106,7 @@ func init() {
 		runner.Part{Scenario: "simhost", Params: p("snapshot", "5", "fsyield", "100", "pcrash", "10", "psnapreq", "10", "sm", "3"), Share: 1},
 		runner.Part{Scenario: "simhost", Params: p("snapshot", "12", "fsyield", "300", "pcrash", "8", "torn", "1"), Share: 1},
 		// on-disk state machines that install streamed snapshots (lagging followers) and crash while doing so
-		runner.Part{Scenario: "simhost", Params: p("sm", "3", "hosts", "3", "snapshot", "5", "overhead", "0", "ppartition", "12", "pheal", "10", "pcrash", "12", "prestart", "60", "fsyield", "400", "ops", "40", "readmix", "10"), Share: 2},
-		// snapshot jobs that queue behind another shard's on the only snapshot worker, crashes and shard restarts meanwhile
-		runner.Part{Scenario: "simhost", Params: p("ballast", "1", "snapworkers", "1", "snapshot", "5", "overhead", "0", "psnapreq", "20", "smyield", "300", "fsyield", "200", "pcrash", "10", "pstop", "6", "ppartition", "8", "ops", "40"), Share: 1})
+		runner.Part{Scenario: "simhost", Params: p("sm", "3", "hosts", "3", "snapshot", "5", "overhead", "0", "ppartition", "12", "pheal", "10", "pcrash", "12", "prestart", "60", "fsyield", "400", "ops", "40", "readmix", "10"), Share: 2})
 	sh("C17", 120, 1200, runner.Part{Scenario: "simhost", Share: 2},
 		runner.Part{Scenario: "simhost", Params: p("pmember", "10", "ptransfer", "8", "ppartition", "8"), Share: 1},
 		// few full members plus witnesses / non-voting members, crashes in the middle of saves
